@@ -21,9 +21,14 @@ Next == \E o \in Ops : \E adm \in Verdicts : Step(o, adm)
 Spec == Init /\ [][Next]_vars
 View == <<st, est>>
 Inv == WWellFormed(st) /\ C01View(V(st))
+\* refinement into the integer abstraction WTinyLFULen (bounds proved by Apalache for all capacities, any estimator)
+WL == INSTANCE WTinyLFULen WITH CW <- W, CA <- A, CB <- B, w <- Len(st.win), a <- Len(st.main.prob), b <- Len(st.main.prot)
 StepOK == LET o == hist'[Len(hist')]
               x == WApply(o, st, o.adm)
-          IN GenericStepOK(V(st), o @@ [ret |-> x.ret], V(x.st), WReadOnly, FALSE)
+              n == x.st
+          IN /\ GenericStepOK(V(st), o @@ [ret |-> x.ret], V(x.st), WReadOnly, FALSE)
+             /\ Assert(WL!NextRel(Len(st.win), Len(st.main.prob), Len(st.main.prot), Len(n.win), Len(n.main.prob), Len(n.main.prot)),
+                       <<"step is not a step of WTinyLFULen", st, o, n>>)
 EmitState == IF Emit THEN PrintT(<<"STATE", ToJson([path |-> hist])>>) ELSE TRUE
 EmitOps == IF Emit THEN PrintT(<<"OPS", ToJson([ops |-> Ops])>>) ELSE TRUE
 ASSUME EmitOps
